@@ -98,6 +98,28 @@ def fam_waitn_mon(rng):
     return lines
 
 
+def fam_timed_contended(rng):
+    """C15 / C05: timed waits (deadline already expired / about to expire / comfortably in the future; zero and
+    pre-epoch values included) whose deadline passes while ANOTHER thread holds the mutex and whose condition is
+    made true and then false again before the waiter can re-acquire: the timeout must still be delivered (every
+    waiter has a finite deadline, so every execution terminates on a correct library)."""
+    lines = ["sem %s" % rng.choice(["counting", "binary"]), "objs mu=1 cv=1 var=2", "var x0 0 mu0", "var x1 0 mu0",
+             "cond c0 eq x0 1", "cond c1 eq x0 1 eq", "cond c2 ge x1 1"]
+    for i in range(rng.choice([1, 2, 2, 3])):
+        rd = rng.random() < 0.3
+        dl = rng.choice(["p500", "p1000", "p3000", "p20000", "m5", "z", "neg", "p200000"])
+        k = rng.choice(["mu", "mu", "mu", "cvw", "await"])
+        w = {"mu": "muwait mu0 %s %s" % (rng.choice(["c0", "c0", "c1", "c2"]), dl), "cvw": "cvwait cv0 mu0 %s" % dl, "await": "await cv0 mu0 x0 1 %s" % dl}[k]
+        lines.append("fiber " + " ; ".join(["yield"] * rng.randrange(0, 2) + ["rlock mu0" if rd else "lock mu0", w, "runlock mu0" if rd else "unlock mu0"]))
+    for i in range(rng.choice([1, 1, 2])):
+        ops = ["yield"] * rng.randrange(0, 3)
+        for _ in range(rng.choice([1, 2, 3])):
+            hold = ["yield"] * rng.randrange(0, 5)
+            ops += ["lock mu0"] + hold + ["wr x0 1", "wr x1 1"] + (["signal cv0"] if rng.random() < 0.4 else []) + ["unlock mu0", "lock mu0", "wr x0 0", "wr x1 0", "unlock mu0"]
+        lines.append("fiber " + " ; ".join(ops))
+    return lines
+
+
 def fam_cancel_only(rng):
     """C05 / C13: waits that ONLY their cancel note (explicit notify, the note's own deadline, or a parent's) or
     their own deadline can end: nobody signals the cv or makes the condition true.  'Once the note is notified the
@@ -374,7 +396,7 @@ except Exception:
     _gm = None
 
 FAMILIES = {"alloc_fail": fam_alloc_fail, "note": _gn.fam_note, "note_f4": _gn.fam_note_f4, "note_f4b": _gn.fam_note_f4b, "note_f7": _gn.fam_note_f7, "refcount": fam_refcount, "starve": fam_starve, "cv_rsignal": fam_cv_rsignal, "ctr": fam_ctr, "once": fam_once, "futex": fam_futex,"core": fam_core, "cv": fam_cv, "cv_raw": fam_cv_raw, "muwait": fam_muwait, "debug": fam_debug,
-            "waitn_cv": fam_waitn_cv, "waitn_rep": fam_waitn_rep, "waitn_mon": fam_waitn_mon, "cancel_only": fam_cancel_only, "mixed": fam_mixed}
+            "waitn_cv": fam_waitn_cv, "waitn_rep": fam_waitn_rep, "timed_contended": fam_timed_contended, "waitn_mon": fam_waitn_mon, "cancel_only": fam_cancel_only, "mixed": fam_mixed}
 
 
 if _gw is not None:
@@ -395,7 +417,7 @@ def make_batch(path, seed, plan):
                 ex = execs(rng, ne)
                 if "#strategy4" in lines:      # half of the schedules of this scenario are adversarial
                     lines = [l for l in lines if l != "#strategy4"]
-                    ex = [e.replace("strategy=%s" % e.split("strategy=")[1].split()[0], "strategy=4") if i % 2 == 0 else e for i, e in enumerate(ex)]
+                    ex = [e.replace("strategy=%s" % e.split("strategy=")[1].split()[0], "strategy=%d" % (4 if i % 4 == 0 else 5)) if i % 2 == 0 else e for i, e in enumerate(ex)]   # 5 = 4 + early wake-ups
                 fm = [l for l in lines if l.startswith("#failmalloc ")]
                 if fm:
                     lines = [l for l in lines if not l.startswith("#failmalloc ")]
